@@ -116,7 +116,8 @@ def subnet_part(V, tr, sd):
     cap = 900 if tr == "quick" else 25000
     if len(nets) > cap:
         nets = rnd.sample(nets, cap)
-    jobs = [{"id": "sub%d" % i, "an": n["net"], "params": c01.row_params(n["net"]), "opts": dict(c04.PF_OPTS), "check": ["C17S"]}
+    jobs = [{"id": "sub%d" % i, "an": n["net"], "params": c01.row_params(n["net"]), "opts": dict(c04.PF_OPTS), "check": ["C17S"],
+             "stored_options": (i % 2 == 1)}
             for i, n in enumerate(nets)]
     cases = [c for c in core.pmap(pf.run_case_subnet, jobs, chunksize=16) if "skip" not in c]
     res, fails = c04.validate(cases)
